@@ -858,6 +858,38 @@ TARGET_ARG = {
 HELPER_DEPTH = 4
 
 
+def candidates(facts, ce):
+    """local bodies a call to an *unclassified* local callee may execute: the resolved impl, or
+    for a trait method every local impl of it plus the provided default body"""
+    if ce is None or not ce.get("local"):
+        return []
+    res = ce.get("resolved")
+    if res and res.get("local"):
+        b = facts.body(res["key"])
+        return [b] if b is not None else []
+    out = []
+    b0 = facts.body(ce["key"])
+    if b0 is not None:
+        out.append(b0)
+    tr = ce.get("trait")
+    if tr and ce.get("kind") == "AssocFn" and b0 is None or (tr and ce.get("kind") == "AssocFn" and
+                                                              b0 is not None and b0.owner.get("in_trait")):
+        t = tr.split("::")[-1]
+        for b in facts.bodies.values():
+            if b.kind == "AssocFn" and b.name == ce["name"] and b.trait == t and b is not b0:
+                out.append(b)
+    return out
+
+
+def ctx_chain_keys(ctx):
+    out = set()
+    c = ctx
+    while c is not None:
+        out.add(c.body.key)
+        c = c.parent
+    return out
+
+
 def body_effects(facts, ctx, depth=0, _stack=()):
     """All effects of a body, including those of closures created in it (substituted) and of
     local non-trait helper functions (summarised, depth-bounded).  Effects are reported with
@@ -888,18 +920,19 @@ def body_effects(facts, ctx, depth=0, _stack=()):
         args = t["args"]
         argorg = [org.operand(a) for a in args]
         # helper summaries: local, non-trait callee that has MIR and is not in the tables
-        target_body = None
-        if ce is not None and ce.get("local") and cls == "unclassified":
-            target_body = facts.body(ce["key"])
-        if target_body is not None and depth < HELPER_DEPTH and target_body.key not in _stack:
+        targets_b = []
+        if ce is not None and ce.get("local") and cls == "unclassified" and tag not in TARGET_ARG:
+            targets_b = [tb for tb in candidates(facts, ce) if tb.key not in _stack and tb.key != body.key]
+        if targets_b and depth < HELPER_DEPTH:
             params = {}
             for k, os_ in enumerate(argorg):
                 s = set()
                 for o in os_:
                     s |= base_places(ctx, o)
                 params[k + 1] = s
-            hctx = Ctx(target_body, parent=ctx, upvars={}, params=params, site_bb=bi)
-            out.extend(body_effects(facts, hctx, depth + 1, _stack + (body.key,)))
+            for target_body in targets_b:
+                hctx = Ctx(target_body, parent=ctx, upvars={}, params=params, site_bb=bi)
+                out.extend(body_effects(facts, hctx, depth + 1, _stack + (body.key,)))
             continue
         specs = TARGET_ARG.get(tag)
         if specs is None:
